@@ -134,6 +134,24 @@ CHECKS.update({
     ),
 })
 
+CHECKS.update({
+    "C08": (
+        "exploration",
+        "property testing with generated value gaps: structured documents with a "
+        "chosen subset of values removed, rendered in seeded layouts; oracle = "
+        "generator's tree and line numbers computed on the input text",
+        "Thousands of documents per permissive variant with 1..all values removed at "
+        "top level and in nested blocks (adjacent gaps, last-in-block, before block "
+        "begin/end, ';', END, end of text), laid out with comments that contain '=', "
+        "CRLF and several statements per line; the returned tree, each placeholder's "
+        "line number and module.errors must match, and PVL/ODL/PDS3 strict parsers "
+        "must raise. Sampled.",
+        "Trusted: line numbers count LF in the text handed in; the gap/position "
+        "bookkeeping of vlib/gen_text.layout_with_positions.",
+        "DESIGN.md 4/C08",
+    ),
+})
+
 PENDING = {}   # id -> reason while a check is not built yet
 
 
